@@ -30,6 +30,8 @@ def _leaf(fn):
 
 
 def run(ctx, obs):
+    from ..rules import sweeps
+    sweeps.run(ctx, obs, 'C13')
     for q, params in PARSERS:
         mask_alignment(ctx, obs, q, params)
     wrapper(ctx, obs)
